@@ -627,7 +627,7 @@ class TimeParameterType(ParameterType, metaclass=ABCMeta):
             coefficients.append(c1)
         # If we have an offset but not a scale, we need to add a first order term with coefficient 1
         elif "offset" in encoding_element.attrib:
-            c1 = calibrators.PolynomialCoefficient(coefficient=1, exponent=1)
+            c1 = calibrators.PolynomialCoefficient(coefficient=1.0, exponent=1)
             coefficients.append(c1)
 
         if coefficients:
